@@ -22,5 +22,6 @@ with open(os.path.join(V, 'seeded', 'INDEX.md'), 'w') as f:
     for r in rows:
         f.write('| %s | %s | %s | %s | %s | %s |\n' % tuple(x.replace('|', '\\|') for x in r))
     det = sum(1 for r in rows if r[3] != '—' and r[2] == 'yes')
-    f.write('\n%d confirmed changes, %d rejected by the owning check in the quick tier.\n' % (sum(1 for r in rows if r[2] == 'yes'), det))
+    own = sum(1 for r in rows if r[2] == 'yes' and r[1] in [x.strip() for x in r[3].split(',')])
+    f.write('\n%d confirmed changes, %d rejected in the quick tier: %d by the check of the property they were written against, %d by the check of the property whose clause they break (see the column).\n' % (sum(1 for r in rows if r[2] == 'yes'), det, own, det - own))
 print(open(os.path.join(V, 'seeded', 'INDEX.md')).read()[-600:])
